@@ -646,6 +646,23 @@ func (e *Env) bulk(kind int, keys, olds []int) (map[int]int, error) {
 		}
 		panic("bulk loader panic string")
 	case OutError:
+		if p.Shape == 2 || p.Shape == 5 {
+			// a failing loader that hands back a map all the same (requested and unrequested keys): the
+			// load has failed, nothing of it may reach the cache
+			res := map[int]int{}
+			for _, k := range keys {
+				res[k] = e.NewValue()
+			}
+			for _, k := range p.Extra {
+				res[k] = e.NewValue()
+			}
+			cp := make(map[int]int, len(res))
+			for k, v := range res {
+				cp[k] = v
+			}
+			e.add(Event{Kind: EvLoadExit, Sub: kind, Res: cp, Out: OutError})
+			return res, errBoom
+		}
 		e.add(Event{Kind: EvLoadExit, Sub: kind, Out: OutError})
 		return nil, errBoom
 	case OutNotFound, OutNotFoundWrapped:
